@@ -11,8 +11,8 @@
 package bed
 
 import (
+	"bufio"
 	"bytes"
-	"encoding/csv"
 	"fmt"
 	"io"
 	"strconv"
@@ -231,15 +231,41 @@ func parseLine(fields []string) (*BED, error) {
 
 // A reader reads and parses BED lines.
 type reader struct {
-	r *csv.Reader
+	r *bufio.Reader
+	n int // Number of fields in the first line, 0 before it was read.
 }
 
 // newReader returns a new BED reader that reads from r.
 func newReader(r io.Reader) *reader {
-	cr := csv.NewReader(r)
-	cr.Comma = '\t'
-	cr.Comment = '#'
-	return &reader{cr}
+	return &reader{r: bufio.NewReader(r)}
+}
+
+// readLine returns the tab-separated fields of the next line. Skips empty
+// lines and lines that start with '#'. All lines are required to have the same
+// number of fields. BED has no quoting, so fields are split on tabs only.
+func (r *reader) readLine() ([]string, error) {
+	for {
+		text, err := r.r.ReadString('\n')
+		if err != nil && err != io.EOF {
+			return nil, err
+		}
+		text = strings.TrimSuffix(strings.TrimSuffix(text, "\n"), "\r")
+		if text == "" || text[0] == '#' {
+			if err == io.EOF {
+				return nil, io.EOF
+			}
+			continue
+		}
+		fields := strings.Split(text, "\t")
+		if r.n == 0 {
+			r.n = len(fields)
+		}
+		if len(fields) != r.n {
+			return nil, fmt.Errorf("wrong number of fields: %v, want %v "+
+				"like in the first line", len(fields), r.n)
+		}
+		return fields, nil
+	}
 }
 
 // read returns the next BED line, and n as the number of fields that were found.
@@ -249,7 +275,7 @@ func newReader(r io.Reader) *reader {
 // For example if n=5, then the populated fields are Chrom, ChromStart, ChromEnd,
 // Name and Score.
 func (r *reader) read() (b *BED, err error) {
-	line, err := r.r.Read()
+	line, err := r.readLine()
 	if err != nil {
 		return nil, err
 	}
